@@ -1,4 +1,5 @@
 import Mastverif.Lemmas.RefCursor
+import Mastverif.Lemmas.RefSeek
 import Mastverif.Lemmas.RefInsertTop
 import Mastverif.Lemmas.TreeInv
 import Mastverif.Lemmas.RefHistExample
@@ -24,7 +25,9 @@ children through the node cache / store — counted loads, any of which may fail
   entry read is what index arithmetic on the sorted entry list of `A` gives (`C10_walk`), and every
   tree of the system denotes what it denoted (the cursor is a capture: it works on a clone and only
   allocates);
-* `C10_object_level_navigate_no_root`: on a tree without a root node every read is "no entry".
+* `C10_object_level_seekIter`: `SeekIter` over the tree's own objects (seek with `Ceil`, then
+  `node.seekIter` from every path entry, children loaded and iterated) hands to its callback exactly
+  the entries whose keys are not smaller than the probe, ascending, each once; it only allocates.
 Tie: family `ptr` (cursor paths — object identities and indices — compared after every cursor
 call).
 -/
@@ -180,7 +183,67 @@ theorem C10_object_level_navigate (E : Env) (t : PTree) (newId fuel f g : Nat) (
   | panic => trivial
   | oof => trivial
 
+/-- **`SeekIter` at the level of node objects**: on a tree whose objects denote the well-formed
+    functional tree `A` (with a root node), for any probe key, fuel above the height, node cache or
+    none and any pattern of failing loads: the entries handed to the callback are exactly the entries
+    of `A` from the first key not smaller than the probe on, in order; error or not, every tree of the
+    system denotes what it denoted -/
+theorem C10_object_level_seekIter (E : Env) (t : PTree) (f k g : Nat) (s : PS) (A : Tree) (hg : Good s)
+    (hA : repTree s g t = some A) (hown : FpOwned s.heap t.id (footprint s g t)) (hinv : Tree.Inv E.layer A)
+    (hf : A.height < f) (hne : t.root ≠ .nil) :
+    match seekIter E t f k s with
+    | .ok es s' => es = A.toList.dropWhile (fun e => decide (e.1 < k)) ∧ Good s' ∧
+        ∀ g2 t2 B, repTree s g2 t2 = some B → FpOwned s.heap t2.id (footprint s g2 t2) →
+          repTree s' g2 t2 = some B ∧ FpOwned s'.heap t2.id (footprint s' g2 t2)
+    | .err s' => Good s' ∧
+        ∀ g2 t2 B, repTree s g2 t2 = some B → FpOwned s.heap t2.id (footprint s g2 t2) →
+          repTree s' g2 t2 = some B ∧ FpOwned s'.heap t2.id (footprint s' g2 t2)
+    | _ => True := by
+  obtain ⟨x, hx, hxnd, hAeq⟩ := repTree_eq_some.mp hA
+  rw [footprint_eq hx] at hown
+  have hs := seekIter_spec E t f k g s x hg hx hxnd hown hne
+  unfold Spec at hs
+  have hroot : A.root = T.unmk x.2.1 := by rw [hAeq]; rfl
+  have hne' : x.2.1 ≠ T.nil := repLink_row_ne_nil hx hne
+  have hun : T.unmk x.2.1 = x.2.1 := by
+    cases hx1 : x.2.1 with
+    | nil => exact absurd hx1 hne'
+    | last _ _ => rfl
+    | cons _ _ _ _ _ => rfl
+  cases hr : seekIter E t f k s with
+  | ok es s' =>
+    rw [hr] at hs
+    refine ⟨?_, hs.1.good hg, fun g2 t2 B hB ho => ⟨(hs.1.tree hB ho).1, (hs.1.tree hB ho).2.1⟩⟩
+    rw [hs.2, ← hun, ← hroot]
+    exact C10_seekIter_spec A.root k f hinv.sorted
+      (Nat.lt_of_le_of_lt (T.lvl_le_of_WF E.layer A.root A.height hinv.wf) hf)
+  | err s' =>
+    rw [hr] at hs
+    exact ⟨hs.good hg, fun g2 t2 B hB ho => ⟨(hs.tree hB ho).1, (hs.tree hB ho).2.1⟩⟩
+  | stuck => trivial
+  | panic => trivial
+  | oof => trivial
+
+/-! non-vacuity (kernel-checked), in the system reached by the history `hxOps`
+    (`Lemmas/RefHistExample.lean`: growth, flush, clone, cached reload, delete): tree 2 holds
+    3, 4, 5, 7, 8 partly as names in the store, partly as objects -/
+def hxNav (pl : CPlace) (ms : List CMove) : Option (Option (Nat × Nat)) :=
+  hxSys.trees[2]?.bind fun t =>
+    match cNavigate hxEnv t 99 10 10 pl ms hxSys.ps with
+    | .ok r _ => r
+    | _ => none
+def hxSeek (k : Nat) : Option (List (Nat × Nat)) :=
+  hxSys.trees[2]?.bind fun t =>
+    match seekIter hxEnv t 10 k hxSys.ps with
+    | .ok es _ => some es
+    | _ => none
+example : hxNav .max [.bwd, .bwd, .fwd] = some (some (7, 70)) ∧ hxNav (.ceil 6) [] = some (some (7, 70)) ∧
+    hxNav .min [.bwd] = some none ∧ hxNav (.ceil 9) [.fwd] = some none := by decide +kernel
+example : hxSeek 5 = some [(5, 50), (7, 70), (8, 80)] ∧ hxSeek 6 = some [(7, 70), (8, 80)] ∧ hxSeek 9 = some [] := by
+  decide +kernel
+
 end Mast.Ptr
+#print axioms Mast.Ptr.C10_object_level_seekIter
 #print axioms Mast.Ptr.C10_object_level_place
 #print axioms Mast.Ptr.C10_object_level_step
 #print axioms Mast.Ptr.C10_object_level_get
